@@ -6,6 +6,7 @@ package manager
 // property's invariants evaluated after every step. DESIGN.md §4.6, §5.
 
 import (
+	"bytes"
 	"context"
 	"fmt"
 	"os"
@@ -1134,6 +1135,9 @@ func (r *vsRun) finalChecks() {
 		r.fatalf("%s", msg)
 	}
 	r.checkViewTags(false)
+	if r.cfg.focus == "C16" {
+		r.detachPhase()
+	}
 	if r.cfg.focus == "C10" {
 		v := &vsView{v: r.e.mgr.GetView()}
 		if _, err := v.v.ReferenceTime(); err != nil {
@@ -1181,6 +1185,73 @@ func (r *vsRun) finalChecks() {
 	}
 }
 
+// detachPhase is the last clause of C16: once a converter is detached from every tag it does not run again,
+// whatever arrives afterwards. The converter executable appends a line per conversion to a side log.
+func (r *vsRun) detachPhase() {
+	logLen := func() int {
+		b, _ := os.ReadFile(os.Getenv("VERIF_CONV_LOG"))
+		return bytes.Count(b, []byte("\n"))
+	}
+	var attached []string
+	_ = r.e.inLoop(func() {
+		for n, t := range r.e.mgr.tags {
+			if len(t.converters) != 0 {
+				attached = append(attached, n)
+			}
+		}
+	})
+	sort.Strings(attached)
+	if len(attached) == 0 && logLen() == 0 {
+		return
+	}
+	for _, n := range attached {
+		n := n
+		if r.apiCall(fmt.Sprintf("UpdateTag(%s,converters=[])", n), func() error { return r.e.mgr.UpdateTag(n, UpdateTagOperationSetConverter(nil)) }) != nil {
+			return
+		}
+	}
+	r.settleAll(400)
+	before := logLen()
+	if os.Getenv("VERIF_DEBUG_C16") != "" {
+		_ = r.e.inLoop(func() {
+			for n, bm := range r.e.mgr.streamsToConvert {
+				fmt.Fprintf(os.Stderr, "DEBUG after detach: queue %s = %v\n", n, sortedKeys(veBits(bm)))
+			}
+			for n, t := range r.e.mgr.tags {
+				fmt.Fprintf(os.Stderr, "DEBUG tag %s matches=%v uncertain=%v convs=%v\n", n, sortedKeys(veBits(t.Matches)), sortedKeys(veBits(t.Uncertain)), t.converterNames())
+			}
+		})
+		b, _ := os.ReadFile(os.Getenv("VERIF_CONV_LOG"))
+		fmt.Fprintf(os.Stderr, "DEBUG log:\n%s\n", b)
+	}
+	// more work arrives: the remaining captures and a tag that matches every stream
+	for r.nextCapture < r.tr.captures() {
+		r.stepImport()
+		if err := r.e.sync(); err != nil {
+			r.fatalf("%v", err)
+		}
+	}
+	r.apiCall("AddTag(tag/z,\"cport:0:\")", func() error { return r.e.mgr.AddTag("tag/z", "#fff", "cport:0:") })
+	r.settleAll(400)
+	r.c.Label("detach-phase")
+	if after := logLen(); after != before {
+		b, _ := os.ReadFile(os.Getenv("VERIF_CONV_LOG"))
+		lines := strings.Split(strings.TrimSpace(string(b)), "\n")
+		r.fatalf("a converter ran %d more times after it had been detached from every tag (last run: %s)", after-before, lines[len(lines)-1])
+	}
+	var msg string
+	_ = r.e.inLoop(func() {
+		for n, bm := range r.e.mgr.streamsToConvert {
+			if !bm.IsZero() {
+				msg = fmt.Sprintf("converter %s has %d streams queued although it is attached to no tag", n, bm.OnesCount())
+			}
+		}
+	})
+	if msg != "" {
+		r.fatalf("%s", msg)
+	}
+}
+
 func slotOf(r *vsRun, v *vsView) int {
 	if r.views[0] == v {
 		return 0
@@ -1204,6 +1275,7 @@ func vsScenario(rt *rapid.T, c *vlib.Case, t *testing.T, cfg vsConfig, open map[
 	r := &vsRun{rt: rt, c: c, cfg: cfg, open: open, tr: vsGenTraffic(rt), kindsDelivered: map[string]bool{}, deliveredCaptures: map[int]bool{}, lastDefs: map[string]string{}}
 	r.views[0], r.views[1] = &vsView{}, &vsView{}
 	c.Render(func() any { return map[string]any{"traffic": r.tr.brief(), "history": r.hist} })
+	os.Setenv("VERIF_CONV_LOG", filepath.Join(base, "conversions.log"))
 	e, err := veStart(d, false)
 	if err != nil {
 		rt.Fatalf("manager.New: %v", err)
